@@ -35,7 +35,7 @@ M = {
 }
 
 
-def H(mod, name, tiers="qt", funcs=(), symbolic="", shape="", role="A", est=30, timeout=None):
+def H(mod, name, tiers="qt", funcs=(), symbolic="", shape="", role="A", est=30, timeout=None, exclusive=False):
     d = {
         "name": M[mod] + name,
         "tiers": tuple({"q": "quick", "t": "thorough"}[c] for c in tiers),
@@ -43,6 +43,8 @@ def H(mod, name, tiers="qt", funcs=(), symbolic="", shape="", role="A", est=30, 
     }
     if timeout:
         d["timeout"] = timeout
+    if exclusive:
+        d["exclusive"] = True
     return d
 
 
@@ -231,9 +233,9 @@ PROPS["C03"] = [
     H("selector", "c03_key_path_plain", funcs=_C03F, symbolic="one printable ASCII byte other than ' and \\", shape="Pointer::key on path $", est=15),
     H("selector", "c03_roleb_key_path_escaped", funcs=_C03F, role="B", symbolic="one byte in {' \\ LF TAB}", shape="Pointer::key on path $", est=15),
     H("selector", "c03_index_route_len3", funcs=_C03F + ["query::selector::process_index"], symbolic="i in -4..3", shape="array of 3", est=25),
-    H("selector", "c03_slice_route", tiers="t", funcs=_C03F + ["query::selector::process_slice"], symbolic="start absent or 0..2, end absent, step in {-1,-2}", shape="array of 3", est=2000, timeout=3000),
-    H("selector", "c03_slice_route_fixed", tiers="t", timeout=3000, funcs=_C03F + ["query::selector::process_slice"], symbolic="element payloads only (slice parameters concrete: [::-2], [1::-1])", shape="array of 3", est=60),
-    H("filter", "c03_filter_route_dup", tiers="t", funcs=_C03F + ["query::filter::Filter::process"], symbolic="element value x (both elements equal), I-JSON",
+    H("selector", "c03_slice_route", tiers="t", exclusive=True, funcs=_C03F + ["query::selector::process_slice"], symbolic="start absent or 0..2, end absent, step in {-1,-2}", shape="array of 3", est=2000, timeout=3000),
+    H("selector", "c03_slice_route_fixed", tiers="t", timeout=3000, exclusive=True, funcs=_C03F + ["query::selector::process_slice"], symbolic="element payloads only (slice parameters concrete: [::-2], [1::-1])", shape="array of 3", est=60),
+    H("filter", "c03_filter_route_dup", tiers="t", exclusive=True, funcs=_C03F + ["query::filter::Filter::process"], symbolic="element value x (both elements equal), I-JSON",
       shape="[x, x], filter @ == x, real fmt", est=600, timeout=3300),
     H("selector", "c03_wildcard_route", funcs=_C03F + ["query::selector::process_wildcard"], symbolic="member values", shape="object {b,a} under $[7]; array of 2 under $['x']", est=90),
     H("selector", "c03_key_route_plain", funcs=_C03F + ["query::selector::process_key"], symbolic="member value", shape="names a and 'a' on {a}", est=15),
